@@ -1274,18 +1274,56 @@ type counterInfo struct {
 	metric string // metric name constant
 }
 
-// counterNames maps counter globals of a package to the metric name they were created with
-// (C20.c NAME-BINDING): each is stored exactly once, inside the sync.Once.Do closure of initMetrics.
+// counterNames maps each counter of a package, identified by the value term seen where it is incremented (a package
+// variable, or a field of a package-level struct), to the metric name it was created with (C20.c NAME-BINDING): every
+// counter location is assigned exactly once, from MetricFactory.NewCounter with a constant name, inside a function that
+// only sync.Once.Do runs.
 func counterNames(w *World, r *Run, pkgPath, rule string) map[string]string {
+	out, _ := counterBindings(w, r, pkgPath, rule)
+	return out
+}
+
+// ssaLoc converts an address rooted at a package-level variable into the term of the value stored there.
+func ssaLoc(v ssa.Value) *Term {
+	switch x := v.(type) {
+	case *ssa.Global:
+		return mk("global", x.Pkg.Pkg.Path()+"."+x.Name(), 0, nil)
+	case *ssa.FieldAddr:
+		base := ssaLoc(x.X)
+		if base == nil {
+			return nil
+		}
+		st := x.X.Type().Underlying().(*types.Pointer).Elem().Underlying().(*types.Struct)
+		return mk("field", st.Field(x.Field).Name(), 0, nil, base)
+	}
+	return nil
+}
+
+func counterBindings(w *World, r *Run, pkgPath, rule string) (map[string]string, map[*ssa.Function]bool) {
 	out := map[string]string{}
+	onces := map[*ssa.Function]bool{}
 	counterT := w.lookup(pMon, "Counter")
 	if counterT == nil {
 		r.Undecided(rule, "monitoring.Counter", "", "type not found")
-		return out
+		return out, onces
 	}
-	stores := map[string]int{}
+	holdsCounter := func(t types.Type) bool {
+		if types.Identical(t, counterT.Type()) {
+			return true
+		}
+		if st, ok := t.Underlying().(*types.Struct); ok {
+			for i := 0; i < st.NumFields(); i++ {
+				if types.Identical(st.Field(i).Type(), counterT.Type()) {
+					return true
+				}
+			}
+		}
+		return false
+	}
+	// A (who may write): counter locations reachable from package-level variables are assigned only inside functions that
+	// nothing but sync.Once.Do runs
 	for _, fn := range w.modFns {
-		if isCanary(fn) {
+		if isCanary(fn) || pkgPathOf(fn) != pkgPath {
 			continue
 		}
 		for _, b := range fn.Blocks {
@@ -1294,48 +1332,102 @@ func counterNames(w *World, r *Run, pkgPath, rule string) map[string]string {
 				if !ok {
 					continue
 				}
-				g, ok := st.Addr.(*ssa.Global)
-				if !ok || g.Pkg.Pkg.Path() != pkgPath {
+				loc := ssaLoc(st.Addr)
+				if loc == nil || !holdsCounter(st.Val.Type()) {
 					continue
 				}
-				if !types.Identical(g.Type().(*types.Pointer).Elem(), counterT.Type()) {
+				key := pkgPath + " counter " + short(loc.String()) + " | assigned only inside Once.Do"
+				if fn.Name() == "init" && fn.Synthetic != "" {
+					r.Fail(rule, key, w.pos(st.Pos()), "counter created at package initialisation (before the metric factory is installed)")
 					continue
 				}
-				name := pkgPath + "." + g.Name()
-				stores[name]++
-				key := name + " | assigned once from NewCounter inside Once.Do"
-				// value must be an invoke of MetricFactory.NewCounter with a constant name
-				val := st.Val
-				if mi, ok := val.(*ssa.MakeInterface); ok {
-					val = mi.X
-				}
-				call, ok := val.(*ssa.Call)
-				if !ok || !call.Call.IsInvoke() || call.Call.Method.FullName() != "("+pMon+".MetricFactory).NewCounter" {
-					r.Fail(rule, key, w.pos(st.Pos()), "counter variable assigned from something other than MetricFactory.NewCounter")
-					continue
-				}
-				c, ok := call.Call.Args[0].(*ssa.Const)
-				if !ok {
-					r.Fail(rule, key, w.pos(st.Pos()), "metric name is not a constant")
-					continue
-				}
-				// the enclosing function must be handed to (*sync.Once).Do (closure or named function called from nowhere else)
 				if !w.inOnce(fn) {
 					r.Fail(rule, key, w.pos(st.Pos()), "counter assigned outside a sync.Once.Do closure (racy re-initialisation)")
 					continue
 				}
-				out[name] = c.Value.ExactString()
-				out[name] = strings.Trim(out[name], "\"")
 				r.Pass(rule, key, w.pos(st.Pos()), "")
+				onces[outermostOnce(w, fn)] = true
 			}
 		}
 	}
-	for name, n := range stores {
-		if n != 1 {
-			r.Fail(rule, name+" | single assignment", "", fmt.Sprintf("counter variable is assigned %d times", n))
+	// B (what is bound): run each of those functions and read off which location received which NewCounter(name)
+	cNew := "(" + pMon + ".MetricFactory).NewCounter"
+	metricOf := func(v *Term) (string, bool) {
+		if v == nil || v.Kind != "call" || v.Name != cNew || len(v.Args) < 3 || v.Args[2].Kind != "const" {
+			return "", false
+		}
+		return unquote(v.Args[2].Name), true
+	}
+	var addrVal func(a *Term) *Term
+	addrVal = func(a *Term) *Term {
+		switch a.Kind {
+		case "gaddr":
+			return mk("global", a.Name, 0, nil)
+		case "faddr":
+			if base := addrVal(a.Args[0]); base != nil {
+				return mk("field", a.Name, 0, nil, base)
+			}
+		}
+		return nil
+	}
+	for f := range onces {
+		e := w.engine(3, 1)
+		for _, s := range e.Explore(f) {
+			if s.Panic {
+				continue
+			}
+			if s.Trunc != "" {
+				r.Undecided(rule, funcNameOrSSA(f), "", "path enumeration truncated: "+s.Trunc)
+				continue
+			}
+			assigned := map[string]int{}
+			for _, ev := range eventsOfKind(s, "store") {
+				loc := addrVal(ev.Recv)
+				if loc == nil || len(ev.Args) != 1 {
+					continue
+				}
+				bind := func(l *Term, v *Term) {
+					assigned[l.key]++
+					key := pkgPath + " counter " + short(l.String()) + " | created by NewCounter with a constant name"
+					if m, ok := metricOf(v); ok {
+						out[l.key] = m
+						r.Pass(rule, key, w.pos(ev.Pos), "")
+					} else if v != nil && v.Typ != nil && types.Identical(v.Typ, counterT.Type()) || (v != nil && v.Kind == "call" && v.Name == cNew) {
+						r.Fail(rule, key, w.pos(ev.Pos), "counter assigned from "+short(fmt.Sprint(v))+", not from MetricFactory.NewCounter with a constant name")
+					}
+				}
+				v := ev.Args[0]
+				if v.Kind == "structval" {
+					for _, fv := range v.Args {
+						if len(fv.Args) == 1 {
+							if _, isC := metricOf(fv.Args[0]); isC {
+								bind(mk("field", fv.Name, 0, nil, loc), fv.Args[0])
+							}
+						}
+					}
+				} else if _, isC := metricOf(v); isC {
+					bind(loc, v)
+				}
+			}
+			for k, n := range assigned {
+				if n != 1 {
+					r.Fail(rule, pkgPath+" counter "+k+" | single assignment", "", fmt.Sprintf("counter is assigned %d times", n))
+				}
+			}
 		}
 	}
-	return out
+	return out, onces
+}
+
+// outermostOnce: the function handed to Once.Do that (lexically) contains fn.
+func outermostOnce(w *World, fn *ssa.Function) *ssa.Function {
+	c := w.callgraph()
+	for f := fn; f != nil; f = f.Parent() {
+		if c.onceFns[f] {
+			return f
+		}
+	}
+	return fn
 }
 
 // onceDoClosures returns the closures that fn passes to (*sync.Once).Do.
@@ -1383,12 +1475,12 @@ func ruleOutcomeCounter(w *World, r *Run, a *updAnalysis, rule string) {
 		cnt := map[string]int{}
 		for _, ie := range v.incs {
 			g := "?"
-			if ie.Recv != nil && ie.Recv.Kind == "global" {
-				g = ie.Recv.Name
+			if ie.Recv != nil {
+				g = ie.Recv.key
 			}
 			m, ok := names[g]
 			if !ok {
-				m = "unknown-counter:" + g
+				m = "unknown-counter:" + short(fmt.Sprint(ie.Recv))
 			}
 			cnt[m]++
 		}
